@@ -192,3 +192,36 @@ def acc_guards(sc, l):
 
 def canon_acc(a):
     return a.split(" | ")[0]
+
+
+# ------------------------------------------------------------------ C43: accessor histories on TL2-origin structs
+def acc2_lines(sc, rng, per):
+    """codec.acc2 lines: random Set(true)/Set(false)/Set(value)/Clear histories on every TL2-origin factory struct that has
+    fields with a presence bit of their own (`x?:T`, `x:bit`)"""
+    from checks import codec_tl2 as t2
+    from vlib.core import hx
+    g = t2.Gen2(sc, rng.fork(), maxdepth=3)
+    lines = []
+    for top, it in sc.items:
+        if top["kind"] != "struct" or not top.get("originTL2") or not top.get("hasTL2") or top.get("isUnwrap") or top.get("isAlias") \
+                or top.get("isTypedef") or top.get("isFunction") or t2.is_enum_element(sc, top):
+            continue
+        fs = top.get("fields") or []
+        accs = [(i, f) for i, f in enumerate(fs) if f.get("tl2bit") is not None and not f["name"].startswith("_") and f.get("x", {}).get("go")]
+        if not accs:
+            continue
+        report = ",".join("%d:%s:%s" % (i, f["x"]["go"], f["name"]) for i, f in accs)
+        for _ in range(per):
+            a = g.top(top, g.value(top["idx"]))
+            b = g.top(top, g.value(top["idx"]))
+            ops = []
+            for _ in range(rng.range(1, 6)):
+                i, f = rng.choice(accs)
+                if f.get("isBit"):
+                    ops.append("s%d:%s:%d" % (i, f["x"]["go"], rng.below(2)))
+                elif rng.chance(1, 3):
+                    ops.append("c%d:%s" % (i, f["x"]["go"]))
+                else:
+                    ops.append("s%d:%s:v" % (i, f["x"]["go"]))
+            lines.append("codec.acc2 %s %d %s %s %s %s %s" % (sc.sid, top["idx"], top["tlname"], hx(a), hx(b), ",".join(ops), report))
+    return lines
